@@ -1,5 +1,5 @@
 // auto-generated: "lalrpop 0.23.1"
-// sha3: d0b6f4f37e39a35d274300c7f3a798755aced5b5765ae9fb452e66988e23c7c6
+// sha3: 26658790a9dc18dc5cb74d23fd4c535cab1a2894d9edb3191fd5e4cbd2f04ec2
 #[allow(unused_extern_crates)]
 extern crate lalrpop_util as __lalrpop_util;
 #[allow(unused_imports)]
@@ -9,7 +9,7 @@ extern crate alloc;
 
 #[rustfmt::skip]
 #[allow(explicit_outlives_requirements, non_snake_case, non_camel_case_types, unused_mut, unused_variables, unused_imports, unused_parens, clippy::needless_lifetimes, clippy::type_complexity, clippy::needless_return, clippy::too_many_arguments, clippy::match_single_binding, clippy::clone_on_copy, clippy::unit_arg)]
-mod __parse__P {
+mod __parse__S {
 
     #[allow(unused_extern_crates)]
     extern crate lalrpop_util as __lalrpop_util;
@@ -23,65 +23,70 @@ mod __parse__P {
      {
         Variant0(&'input str),
         Variant1(String),
-        Variant2(Vec<(String, String)>),
     }
     const __ACTION: &[i8] = &[
         // State 0
-        0, 0, 0, 0, -4,
+        3, 4, 5, 6, 7, 8, 9, 10,
         // State 1
-        8, 7, 0, 0, 0,
+        0, 0, 0, 0, 0, 0, 0, 0,
         // State 2
-        0, 0, 0, 0, 4,
+        0, 0, 0, 0, 0, 0, 0, 0,
         // State 3
-        0, 5, 0, 0, 0,
+        0, 0, 0, 0, 0, 0, 0, 0,
         // State 4
-        0, 0, 0, 2, 0,
+        0, 0, 0, 0, 0, 0, 0, 0,
         // State 5
-        0, 0, 9, 0, 0,
+        0, 0, 0, 0, 0, 0, 0, 0,
         // State 6
-        0, 0, -1, 0, 0,
+        0, 0, 0, 0, 0, 0, 0, 0,
         // State 7
-        0, 0, -2, 0, 0,
+        0, 0, 0, 0, 0, 0, 0, 0,
         // State 8
-        0, 0, 0, 0, -3,
+        0, 0, 0, 0, 0, 0, 0, 0,
+        // State 9
+        0, 0, 0, 0, 0, 0, 0, 0,
     ];
     fn __action(state: i8, integer: usize) -> i8 {
-        __ACTION[(state as usize) * 5 + integer]
+        __ACTION[(state as usize) * 8 + integer]
     }
     const __EOF_ACTION: &[i8] = &[
         // State 0
-        -4,
+        0,
         // State 1
-        0,
+        -9,
         // State 2
-        -5,
+        -1,
         // State 3
-        0,
+        -2,
         // State 4
-        0,
-        // State 5
-        0,
-        // State 6
-        0,
-        // State 7
-        0,
-        // State 8
         -3,
+        // State 5
+        -4,
+        // State 6
+        -5,
+        // State 7
+        -6,
+        // State 8
+        -7,
+        // State 9
+        -8,
     ];
     fn __goto(state: i8, nt: usize) -> i8 {
         match nt {
-            0 => 5,
-            1 => 2,
+            0 => 1,
             _ => 0,
         }
     }
     #[allow(clippy::needless_raw_string_hashes)]
     const __TERMINAL: &[&str] = &[
-        r###"NUM"###,
-        r###"ID"###,
-        r###"";""###,
-        r###""=""###,
-        r###""let""###,
+        r###""k0""###,
+        r###""k1""###,
+        r###""k2""###,
+        r###""k3""###,
+        r###""k4""###,
+        r###""k5""###,
+        r###""k6""###,
+        r###""k7""###,
     ];
     fn __expected_tokens(__state: i8) -> alloc::vec::Vec<alloc::string::String> {
         __TERMINAL.iter().enumerate().filter_map(|(index, terminal)| {
@@ -122,7 +127,7 @@ mod __parse__P {
         type Token = Token<'input>;
         type TokenIndex = usize;
         type Symbol = __Symbol<'input>;
-        type Success = Vec<(String, String)>;
+        type Success = String;
         type StateIndex = i8;
         type Action = i8;
         type ReduceIndex = i8;
@@ -150,7 +155,7 @@ mod __parse__P {
 
         #[inline]
         fn error_action(&self, state: i8) -> i8 {
-            __action(state, 5 - 1)
+            __action(state, 8 - 1)
         }
 
         #[inline]
@@ -218,11 +223,14 @@ mod __parse__P {
     {
         #[warn(unused_variables)]
         match __token {
-            Token(2, _) if true => Some(0),
-            Token(3, _) if true => Some(1),
-            Token(4, _) if true => Some(2),
-            Token(5, _) if true => Some(3),
-            Token(6, _) if true => Some(4),
+            Token(0, _) if true => Some(0),
+            Token(1, _) if true => Some(1),
+            Token(2, _) if true => Some(2),
+            Token(3, _) if true => Some(3),
+            Token(4, _) if true => Some(4),
+            Token(5, _) if true => Some(5),
+            Token(6, _) if true => Some(6),
+            Token(7, _) if true => Some(7),
             _ => None,
         }
     }
@@ -235,8 +243,8 @@ mod __parse__P {
     ) -> __Symbol<'input>
     {
         #[allow(clippy::manual_range_patterns)]match __token_index {
-            0 | 1 | 2 | 3 | 4 => match __token {
-                Token(2, __tok0) | Token(3, __tok0) | Token(4, __tok0) | Token(5, __tok0) | Token(6, __tok0) if true => __Symbol::Variant0(__tok0),
+            0 | 1 | 2 | 3 | 4 | 5 | 6 | 7 => match __token {
+                Token(0, __tok0) | Token(1, __tok0) | Token(2, __tok0) | Token(3, __tok0) | Token(4, __tok0) | Token(5, __tok0) | Token(6, __tok0) | Token(7, __tok0) if true => __Symbol::Variant0(__tok0),
                 _ => unreachable!(),
             },
             _ => unreachable!(),
@@ -264,30 +272,54 @@ mod __parse__P {
             }
             2 => {
                 __state_machine::SimulatedReduce::Reduce {
-                    states_to_pop: 6,
-                    nonterminal_produced: 1,
+                    states_to_pop: 1,
+                    nonterminal_produced: 0,
                 }
             }
             3 => {
                 __state_machine::SimulatedReduce::Reduce {
-                    states_to_pop: 0,
-                    nonterminal_produced: 1,
+                    states_to_pop: 1,
+                    nonterminal_produced: 0,
                 }
             }
-            4 => __state_machine::SimulatedReduce::Accept,
+            4 => {
+                __state_machine::SimulatedReduce::Reduce {
+                    states_to_pop: 1,
+                    nonterminal_produced: 0,
+                }
+            }
+            5 => {
+                __state_machine::SimulatedReduce::Reduce {
+                    states_to_pop: 1,
+                    nonterminal_produced: 0,
+                }
+            }
+            6 => {
+                __state_machine::SimulatedReduce::Reduce {
+                    states_to_pop: 1,
+                    nonterminal_produced: 0,
+                }
+            }
+            7 => {
+                __state_machine::SimulatedReduce::Reduce {
+                    states_to_pop: 1,
+                    nonterminal_produced: 0,
+                }
+            }
+            8 => __state_machine::SimulatedReduce::Accept,
             _ => panic!("invalid reduction index {__reduce_index}")
         }
     }
-    pub struct PParser {
+    pub struct SParser {
         builder: __lalrpop_util::lexer::MatcherBuilder,
         _priv: (),
     }
 
-    impl Default for PParser { fn default() -> Self { Self::new() } }
-    impl PParser {
-        pub fn new() -> PParser {
+    impl Default for SParser { fn default() -> Self { Self::new() } }
+    impl SParser {
+        pub fn new() -> SParser {
             let __builder = super::__intern_token::new_builder();
-            PParser {
+            SParser {
                 builder: __builder,
                 _priv: (),
             }
@@ -299,7 +331,7 @@ mod __parse__P {
         >(
             &self,
             input: &'input str,
-        ) -> Result<Vec<(String, String)>, __lalrpop_util::ParseError<usize, Token<'input>, &'static str>>
+        ) -> Result<String, __lalrpop_util::ParseError<usize, Token<'input>, &'static str>>
         {
             let mut __tokens = self.builder.matcher(input);
             __state_machine::Parser::drive(
@@ -353,7 +385,7 @@ mod __parse__P {
         __states: &mut alloc::vec::Vec<i8>,
         __symbols: &mut alloc::vec::Vec<(usize,__Symbol<'input>,usize)>,
         _: core::marker::PhantomData<(&'input ())>,
-    ) -> Option<Result<Vec<(String, String)>,__lalrpop_util::ParseError<usize, Token<'input>, &'static str>>>
+    ) -> Option<Result<String,__lalrpop_util::ParseError<usize, Token<'input>, &'static str>>>
     {
         let (__pop_states, __nonterminal) = match __action {
             0 => {
@@ -369,8 +401,20 @@ mod __parse__P {
                 __reduce3(input, __lookahead_start, __symbols, core::marker::PhantomData::<(&())>)
             }
             4 => {
-                // __P = P => ActionFn(0);
-                let __sym0 = __pop_Variant2(__symbols);
+                __reduce4(input, __lookahead_start, __symbols, core::marker::PhantomData::<(&())>)
+            }
+            5 => {
+                __reduce5(input, __lookahead_start, __symbols, core::marker::PhantomData::<(&())>)
+            }
+            6 => {
+                __reduce6(input, __lookahead_start, __symbols, core::marker::PhantomData::<(&())>)
+            }
+            7 => {
+                __reduce7(input, __lookahead_start, __symbols, core::marker::PhantomData::<(&())>)
+            }
+            8 => {
+                // __S = S => ActionFn(0);
+                let __sym0 = __pop_Variant1(__symbols);
                 let __start = __sym0.0.clone();
                 let __end = __sym0.2.clone();
                 let __nt = super::__action0::<>(input, __sym0);
@@ -400,17 +444,6 @@ mod __parse__P {
             _ => __symbol_type_mismatch()
         }
     }
-    fn __pop_Variant2<
-      'input,
-    >(
-        __symbols: &mut alloc::vec::Vec<(usize,__Symbol<'input>,usize)>
-    ) -> (usize, Vec<(String, String)>, usize)
-     {
-        match __symbols.pop() {
-            Some((__l, __Symbol::Variant2(__v), __r)) => (__l, __v, __r),
-            _ => __symbol_type_mismatch()
-        }
-    }
     fn __pop_Variant0<
       'input,
     >(
@@ -431,11 +464,11 @@ mod __parse__P {
         _: core::marker::PhantomData<(&'input ())>,
     ) -> (usize, usize)
     {
-        // E = ID => ActionFn(3);
+        // S = "k0" => ActionFn(1);
         let __sym0 = __pop_Variant0(__symbols);
         let __start = __sym0.0.clone();
         let __end = __sym0.2.clone();
-        let __nt = super::__action3::<>(input, __sym0);
+        let __nt = super::__action1::<>(input, __sym0);
         __symbols.push((__start, __Symbol::Variant1(__nt), __end));
         (1, 0)
     }
@@ -448,11 +481,11 @@ mod __parse__P {
         _: core::marker::PhantomData<(&'input ())>,
     ) -> (usize, usize)
     {
-        // E = NUM => ActionFn(4);
+        // S = "k1" => ActionFn(2);
         let __sym0 = __pop_Variant0(__symbols);
         let __start = __sym0.0.clone();
         let __end = __sym0.2.clone();
-        let __nt = super::__action4::<>(input, __sym0);
+        let __nt = super::__action2::<>(input, __sym0);
         __symbols.push((__start, __Symbol::Variant1(__nt), __end));
         (1, 0)
     }
@@ -465,19 +498,13 @@ mod __parse__P {
         _: core::marker::PhantomData<(&'input ())>,
     ) -> (usize, usize)
     {
-        // P = P, "let", ID, "=", E, ";" => ActionFn(1);
-        assert!(__symbols.len() >= 6);
-        let __sym5 = __pop_Variant0(__symbols);
-        let __sym4 = __pop_Variant1(__symbols);
-        let __sym3 = __pop_Variant0(__symbols);
-        let __sym2 = __pop_Variant0(__symbols);
-        let __sym1 = __pop_Variant0(__symbols);
-        let __sym0 = __pop_Variant2(__symbols);
+        // S = "k2" => ActionFn(3);
+        let __sym0 = __pop_Variant0(__symbols);
         let __start = __sym0.0.clone();
-        let __end = __sym5.2.clone();
-        let __nt = super::__action1::<>(input, __sym0, __sym1, __sym2, __sym3, __sym4, __sym5);
-        __symbols.push((__start, __Symbol::Variant2(__nt), __end));
-        (6, 1)
+        let __end = __sym0.2.clone();
+        let __nt = super::__action3::<>(input, __sym0);
+        __symbols.push((__start, __Symbol::Variant1(__nt), __end));
+        (1, 0)
     }
     fn __reduce3<
         'input,
@@ -488,16 +515,85 @@ mod __parse__P {
         _: core::marker::PhantomData<(&'input ())>,
     ) -> (usize, usize)
     {
-        // P =  => ActionFn(2);
-        let __start = __lookahead_start.cloned().or_else(|| __symbols.last().map(|s| s.2.clone())).unwrap_or_default();
-        let __end = __start.clone();
-        let __nt = super::__action2::<>(input, &__start, &__end);
-        __symbols.push((__start, __Symbol::Variant2(__nt), __end));
-        (0, 1)
+        // S = "k3" => ActionFn(4);
+        let __sym0 = __pop_Variant0(__symbols);
+        let __start = __sym0.0.clone();
+        let __end = __sym0.2.clone();
+        let __nt = super::__action4::<>(input, __sym0);
+        __symbols.push((__start, __Symbol::Variant1(__nt), __end));
+        (1, 0)
+    }
+    fn __reduce4<
+        'input,
+    >(
+        input: &'input str,
+        __lookahead_start: Option<&usize>,
+        __symbols: &mut alloc::vec::Vec<(usize,__Symbol<'input>,usize)>,
+        _: core::marker::PhantomData<(&'input ())>,
+    ) -> (usize, usize)
+    {
+        // S = "k4" => ActionFn(5);
+        let __sym0 = __pop_Variant0(__symbols);
+        let __start = __sym0.0.clone();
+        let __end = __sym0.2.clone();
+        let __nt = super::__action5::<>(input, __sym0);
+        __symbols.push((__start, __Symbol::Variant1(__nt), __end));
+        (1, 0)
+    }
+    fn __reduce5<
+        'input,
+    >(
+        input: &'input str,
+        __lookahead_start: Option<&usize>,
+        __symbols: &mut alloc::vec::Vec<(usize,__Symbol<'input>,usize)>,
+        _: core::marker::PhantomData<(&'input ())>,
+    ) -> (usize, usize)
+    {
+        // S = "k5" => ActionFn(6);
+        let __sym0 = __pop_Variant0(__symbols);
+        let __start = __sym0.0.clone();
+        let __end = __sym0.2.clone();
+        let __nt = super::__action6::<>(input, __sym0);
+        __symbols.push((__start, __Symbol::Variant1(__nt), __end));
+        (1, 0)
+    }
+    fn __reduce6<
+        'input,
+    >(
+        input: &'input str,
+        __lookahead_start: Option<&usize>,
+        __symbols: &mut alloc::vec::Vec<(usize,__Symbol<'input>,usize)>,
+        _: core::marker::PhantomData<(&'input ())>,
+    ) -> (usize, usize)
+    {
+        // S = "k6" => ActionFn(7);
+        let __sym0 = __pop_Variant0(__symbols);
+        let __start = __sym0.0.clone();
+        let __end = __sym0.2.clone();
+        let __nt = super::__action7::<>(input, __sym0);
+        __symbols.push((__start, __Symbol::Variant1(__nt), __end));
+        (1, 0)
+    }
+    fn __reduce7<
+        'input,
+    >(
+        input: &'input str,
+        __lookahead_start: Option<&usize>,
+        __symbols: &mut alloc::vec::Vec<(usize,__Symbol<'input>,usize)>,
+        _: core::marker::PhantomData<(&'input ())>,
+    ) -> (usize, usize)
+    {
+        // S = "k7" => ActionFn(8);
+        let __sym0 = __pop_Variant0(__symbols);
+        let __start = __sym0.0.clone();
+        let __end = __sym0.2.clone();
+        let __nt = super::__action8::<>(input, __sym0);
+        __symbols.push((__start, __Symbol::Variant1(__nt), __end));
+        (1, 0)
     }
 }
 #[allow(unused_imports)]
-pub use self::__parse__P::PParser;
+pub use self::__parse__S::SParser;
 #[rustfmt::skip]
 mod __intern_token {
     #![allow(unused_imports)]
@@ -509,13 +605,15 @@ mod __intern_token {
     extern crate alloc;
     pub fn new_builder() -> __lalrpop_util::lexer::MatcherBuilder {
         let __strs: &[(&str, bool)] = &[
-            ("(?:\\#[\0-\t\u{b}-\u{10ffff}]*)", true),
-            ("[\t-\r \u{85}\u{a0}\u{1680}\u{2000}-\u{200a}\u{2028}\u{2029}\u{202f}\u{205f}\u{3000}]+", true),
-            ("[0-9]+", false),
-            ("[a-z]+", false),
-            (";", false),
-            ("=", false),
-            ("(?:let)", false),
+            ("(?:k0)", false),
+            ("(?:k1)", false),
+            ("(?:k2)", false),
+            ("(?:k3)", false),
+            ("(?:k4)", false),
+            ("(?:k5)", false),
+            ("(?:k6)", false),
+            ("(?:k7)", false),
+            (r"\s+", true),
         ];
         __lalrpop_util::lexer::MatcherBuilder::new(__strs.iter().copied()).unwrap()
     }
@@ -528,8 +626,8 @@ fn __action0<
     'input,
 >(
     input: &'input str,
-    (_, __0, _): (usize, Vec<(String, String)>, usize),
-) -> Vec<(String, String)>
+    (_, __0, _): (usize, String, usize),
+) -> String
 {
     __0
 }
@@ -540,15 +638,10 @@ fn __action1<
     'input,
 >(
     input: &'input str,
-    (_, mut v, _): (usize, Vec<(String, String)>, usize),
-    (_, _, _): (usize, &'input str, usize),
-    (_, i, _): (usize, &'input str, usize),
-    (_, _, _): (usize, &'input str, usize),
-    (_, e, _): (usize, String, usize),
-    (_, _, _): (usize, &'input str, usize),
-) -> Vec<(String, String)>
+    (_, __0, _): (usize, &'input str, usize),
+) -> String
 {
-    { v.push((i.to_string(), e)); v }
+    { let r#type = [1, 2, 3]; r#type[(0 + 1)].to_string() }
 }
 
 #[allow(unused_variables)]
@@ -557,11 +650,10 @@ fn __action2<
     'input,
 >(
     input: &'input str,
-    __lookbehind: &usize,
-    __lookahead: &usize,
-) -> Vec<(String, String)>
+    (_, __0, _): (usize, &'input str, usize),
+) -> String
 {
-    vec![]
+    r###"}"#}"###.to_string()
 }
 
 #[allow(unused_variables)]
@@ -573,7 +665,7 @@ fn __action3<
     (_, __0, _): (usize, &'input str, usize),
 ) -> String
 {
-    __0.to_string()
+    "[".to_string()
 }
 
 #[allow(unused_variables)]
@@ -585,7 +677,55 @@ fn __action4<
     (_, __0, _): (usize, &'input str, usize),
 ) -> String
 {
-    __0.to_string()
+    '\u{7d}'.to_string()
+}
+
+#[allow(unused_variables)]
+#[allow(clippy::too_many_arguments, clippy::needless_lifetimes, clippy::just_underscores_and_digits, clippy::extra_unused_type_parameters)]
+fn __action5<
+    'input,
+>(
+    input: &'input str,
+    (_, __0, _): (usize, &'input str, usize),
+) -> String
+{
+    r"".to_string()
+}
+
+#[allow(unused_variables)]
+#[allow(clippy::too_many_arguments, clippy::needless_lifetimes, clippy::just_underscores_and_digits, clippy::extra_unused_type_parameters)]
+fn __action6<
+    'input,
+>(
+    input: &'input str,
+    (_, __0, _): (usize, &'input str, usize),
+) -> String
+{
+    "[')(]\"".to_string()
+}
+
+#[allow(unused_variables)]
+#[allow(clippy::too_many_arguments, clippy::needless_lifetimes, clippy::just_underscores_and_digits, clippy::extra_unused_type_parameters)]
+fn __action7<
+    'input,
+>(
+    input: &'input str,
+    (_, __0, _): (usize, &'input str, usize),
+) -> String
+{
+    '}'.to_string()
+}
+
+#[allow(unused_variables)]
+#[allow(clippy::too_many_arguments, clippy::needless_lifetimes, clippy::just_underscores_and_digits, clippy::extra_unused_type_parameters)]
+fn __action8<
+    'input,
+>(
+    input: &'input str,
+    (_, __0, _): (usize, &'input str, usize),
+) -> String
+{
+    "r#a}a \\".to_string()
 }
 
 #[allow(clippy::type_complexity, dead_code)]
